@@ -79,8 +79,15 @@ class CombinedModel(darsia.Model):
             # Analogously when only a subset of parameters is to be updated
             for pos_model, pos_parameter in dofs:
                 model = self.models[pos_model]
-                model.update_model_parameters(parameters_cache, pos_parameter)
-                parameters_cache = parameters_cache[model.num_parameters :]
+                # The models expect lists of parameter names
+                model_dofs = (
+                    [pos_parameter]
+                    if isinstance(pos_parameter, str)
+                    else list(pos_parameter)
+                )
+                model.update_model_parameters(parameters_cache, model_dofs)
+                # Remove the updated parameters from the cache
+                parameters_cache = parameters_cache[len(model_dofs) :]
 
     def __getitem__(self, pos_model: int) -> darsia.Model:
         """Access single models.
